@@ -96,18 +96,7 @@ func TestVerifC01(t *testing.T) {
 			plans = append(plans, pl)
 		}
 	}
-	for _, p := range plans {
-		if r.Expired() {
-			r.NotExhaustive("deadline before plan " + p.cfg + "@" + p.alpha)
-			break
-		}
-		c := cfgs[p.cfg]
-		c.Alphabet = p.alpha
-		name := fmt.Sprintf("%s@%s", p.cfg, p.alpha)
-		res := r.BFS(name, func() vx.Sys { return dbxWithSoft(r, c, name) }, p.depth)
-		t.Logf("C01 %s depth %d: states=%d transitions=%d depthCompleted=%d", name, p.depth, res.States, res.Transitions, res.DepthCompleted)
-	}
-	// search from non-initial states (deep scripted pre-states), medium alphabet
+	// FIRST (targeted, must not be cut off by the deadline): search from non-initial states (deep scripted pre-states), medium alphabet
 	for _, cn := range vx.Pick(r, []string{"ooo", "snap"}, []string{"ooo", "snap", "base", "oooneg", "ooo+snap", "ooo+xor2+st", "v2"}) {
 		if r.Expired() {
 			r.NotExhaustive("deadline before the non-initial-state search of " + cn)
@@ -118,6 +107,17 @@ func TestVerifC01(t *testing.T) {
 		name := cn + "@medium+starts"
 		res := r.BFSFrom(name, func() vx.Sys { return dbxWithSoft(r, c, name) }, dbxStarts(c.W), vx.Pick(r, 1, 2))
 		t.Logf("C01 %s: states=%d transitions=%d depthCompleted=%d", name, res.States, res.Transitions, res.DepthCompleted)
+	}
+	for _, p := range plans {
+		if r.Expired() {
+			r.NotExhaustive("deadline before plan " + p.cfg + "@" + p.alpha)
+			break
+		}
+		c := cfgs[p.cfg]
+		c.Alphabet = p.alpha
+		name := fmt.Sprintf("%s@%s", p.cfg, p.alpha)
+		res := r.BFS(name, func() vx.Sys { return dbxWithSoft(r, c, name) }, p.depth)
+		t.Logf("C01 %s depth %d: states=%d transitions=%d depthCompleted=%d", name, p.depth, res.States, res.Transitions, res.DepthCompleted)
 	}
 	r.Set("rule", "explicit-state BFS over dbx operation histories (append/commit/rollback/delete/head compaction/OOO compaction/Compact/CleanTombstones/reopen) with canonical-state de-duplication; after every transition Querier and ChunkQuerier over 45 ranges are compared with the reference model")
 	r.Assume("appendable window (head max time, min valid time) is read from the implementation when an appender is created; admission is then predicted by the model")
